@@ -16,7 +16,7 @@ def parseStatus : String → Option Status
   | "U" => some .unavailable | "A" => some .available | "R" => some .recovering | _ => none
 
 def kindCh : TimerKind → String
-  | .recovery _ _ => "R" | .switch => "S"
+  | .recovery _ _ _ => "R" | .switch => "S"
 
 def digest (s : St) : String :=
   let eps := (s.eps.mergeSort fun a b => a.id ≤ b.id).map fun e => s!"{e.id}:{e.prio}:{statusCh e.status}"
@@ -45,7 +45,7 @@ def parseDigest (r d : Int) (obs : String) : Option St := do
     | tid :: due :: k :: rest => do
       let tid ← tid.toNat?
       let due ← due.toInt?
-      let kind ← (match k with | "R" => some (TimerKind.recovery 0 none) | "S" => some .switch | _ => none)
+      let kind ← (match k with | "R" => some (TimerKind.recovery 0 "" none) | "S" => some .switch | _ => none)
       pure ({ tid := tid, due := due, kind := kind, stopped := rest == ["x"] } : Timer)
     | _ => none
   pure { r := r, d := d, eps := eps, orphans := [], current := arg as "cur", future := arg as "fut",
